@@ -43,41 +43,41 @@ func (c *Candidate) key() string {
 }
 
 type Interp struct {
-	prog    *ssa.Program
-	ex      *Explorer
-	tab     *TermTab
-	solver  *Solver
-	model   *Model
-	prefix  []int32
-	decs    []int32
-	pos     int
-	inputs  []inputRec
-	names   map[string]int
-	globals map[*ssa.Global]*value
-	copied  map[interface{}]interface{}
-	stack   []*ssa.Function
-	depth   int
-	steps   int64
-	budget  int64
-	tags    []string
-	reach   map[string]int
-	obsVals []obsRec
-	cov     map[*ssa.BasicBlock]struct{}
-	nondet  []string
-	epoch   bool
-	snaps   []snapshot
-	params  map[string]int64
-	asserts map[string]*assertStat
-	harness string
-	inconcl bool
-	newCands []*Candidate
+	prog        *ssa.Program
+	ex          *Explorer
+	tab         *TermTab
+	solver      *Solver
+	model       *Model
+	prefix      []int32
+	decs        []int32
+	pos         int
+	inputs      []inputRec
+	names       map[string]int
+	globals     map[*ssa.Global]*value
+	copied      map[interface{}]interface{}
+	stack       []*ssa.Function
+	depth       int
+	steps       int64
+	budget      int64
+	tags        []string
+	reach       map[string]int
+	obsVals     []obsRec
+	cov         map[*ssa.BasicBlock]struct{}
+	nondet      []string
+	epoch       bool
+	snaps       []snapshot
+	params      map[string]int64
+	asserts     map[string]*assertStat
+	harness     string
+	inconcl     bool
+	newCands    []*Candidate
 	assumeKills int
-	boot     bool
-	ds       *domState
-	recheck  bool
+	boot        bool
+	ds          *domState
+	recheck     bool
 	noSummaries bool
-	errT     types.Type
-	numErrT  types.Type
+	errT        types.Type
+	numErrT     types.Type
 }
 
 type assertStat struct {
@@ -86,53 +86,54 @@ type assertStat struct {
 }
 
 type Explorer struct {
-	prog     *ssa.Program
-	harness  string
-	entry    *ssa.Function
-	params   map[string]int64
-	workers  int
-	solverK  string
-	budget   int64
-	maxPaths int64
-	deadline time.Time
+	prog       *ssa.Program
+	harness    string
+	entry      *ssa.Function
+	params     map[string]int64
+	workers    int
+	solverK    string
+	budget     int64
+	maxPaths   int64
+	assumeOnly map[string]bool // when set, only these assertions are assumed to hold after they were checked
+	deadline   time.Time
 
-	mu       sync.Mutex
-	cond     *sync.Cond
-	work     []workItem
-	active   int
-	stopped  bool
+	mu      sync.Mutex
+	cond    *sync.Cond
+	work    []workItem
+	active  int
+	stopped bool
 
 	// results (under mu)
-	Paths      int64
-	Ends       map[string]int64
-	Cuts       map[string]int64
-	Reach      map[string]int64
-	Asserts    map[string]*assertStat
-	Decisions  int64
-	Steps      int64
-	Queries    int64
-	UnsatN     int64
-	SatN       int64
-	UnkN       int64
-	SolverTime time.Duration
-	Cands      map[string][]*Candidate // by key
-	Samples    []string
-	Nondet     map[string]int64
-	Cov        map[*ssa.BasicBlock]struct{}
-	TraceVecs  [][]int64 // vectors kept for trace validation
-	TraceObs   [][]string
-	CutVecs    [][]int64 // one concrete representative per cut path, replayed natively for its assertions only
-	EngineErrs map[string]int64
-	Truncated  bool
-	AssumeKills int64
-	initG      *globalsInit
-	traceEvery int64
-	domForks   atomic.Int64
-	domDecided atomic.Int64
+	Paths        int64
+	Ends         map[string]int64
+	Cuts         map[string]int64
+	Reach        map[string]int64
+	Asserts      map[string]*assertStat
+	Decisions    int64
+	Steps        int64
+	Queries      int64
+	UnsatN       int64
+	SatN         int64
+	UnkN         int64
+	SolverTime   time.Duration
+	Cands        map[string][]*Candidate // by key
+	Samples      []string
+	Nondet       map[string]int64
+	Cov          map[*ssa.BasicBlock]struct{}
+	TraceVecs    [][]int64 // vectors kept for trace validation
+	TraceObs     [][]string
+	CutVecs      [][]int64 // one concrete representative per cut path, replayed natively for its assertions only
+	EngineErrs   map[string]int64
+	Truncated    bool
+	AssumeKills  int64
+	initG        *globalsInit
+	traceEvery   int64
+	domForks     atomic.Int64
+	domDecided   atomic.Int64
 	domRechecked atomic.Int64
 	recheckEvery int64
-	pathSeq    atomic.Int64
-	seed       int64
+	pathSeq      atomic.Int64
+	seed         int64
 }
 
 func NewExplorer(prog *ssa.Program, entry *ssa.Function, harness string, params map[string]int64, workers int) *Explorer {
@@ -573,7 +574,6 @@ func (in *Interp) concretize(t *Term, what string) int64 {
 	in.take(in.tab.Eq(t, in.tab.Const(t.w, v)), true)
 	return sv
 }
-
 
 // ---------------------------------------------------------------------------------------------
 // inputs, vectors, descriptions
